@@ -48,8 +48,8 @@ private:
    /// @since  0.3, 19.06.2016
    bool pass( const log::detail::LogMsg& msg) const override;
 
-   /// Set of log classes to accept.
-   std::bitset< static_cast< size_t>( LogClass::operatorAction)>  mClassSelection;
+   /// Set of log classes to accept, one bit per log class including the last.
+   std::bitset< static_cast< size_t>( LogClass::operatorAction) + 1>  mClassSelection;
 
 }; // LogFilterClasses
 
